@@ -1,4 +1,5 @@
 import Verif.Lemmas.SseReq
+import Verif.Gen.SseTiming
 
 /-! # C12 — SSE transport: live-or-raise setup, exactly-once delivery, chunk-independent
 
@@ -12,6 +13,11 @@ the real tasks, streams and HTTP clients are released is decided by the correspo
 namespace Verif.Props.C12
 open Verif.Model.SseReq
 variable {α : Type}
+
+/-- the literals the harness takes from the source (connection cap, default timeout, synthesised
+error codes) were found in the shapes the translator understands -/
+theorem c12_translated : Verif.Gen.SseTiming.translatable = true
+    ∧ 0 < Verif.Gen.SseTiming.connectCapMs ∧ 0 < Verif.Gen.SseTiming.defaultTimeoutMs := by decide
 
 /-! ## establishment -/
 
@@ -280,6 +286,34 @@ example : (runChunks PSt.init ["event: mess".toList, "age\r".toList, [], "\ndata
       "ta: {\"jsonrpc\":\"2.0\"}\n".toList]).2
     = [.message "{\"id\":1}".toList, .message "{\"jsonrpc\":\"2.0\"}".toList] := by
   decide
+
+/-- Delivered once and in order, independent of the chunking: take any sequence of typed events
+(endpoint / message / keepalive) and comment lines, rendered by a server with LF or CRLF line ends,
+whose data has no line feed and no surrounding white space, and cut the text into chunks in any way
+whatsoever; the parser hands the transport exactly one action per endpoint / message event, in
+stream order, and nothing for keepalives and comments. -/
+theorem c12_stream_delivers_rendered (evs : List (Ev × Bool)) (hclean : ∀ p ∈ evs, p.1.Clean)
+    (chunks : List Str) (h : chunks.flatten = renderText evs) :
+    (runChunks PSt.init chunks).2 = evs.filterMap (fun p => p.1.act) := by
+  rw [runChunks_eq _ PSt.init_clean, h]
+  simp only [PSt.init, List.nil_append, renderText]
+  rw [splitLF_join _ (by
+    intro l hl
+    obtain ⟨p, hp, hlp⟩ := List.mem_flatMap.mp hl
+    exact evLines_noLF p.1 p.2 (hclean p hp) l hlp)]
+  exact stepLines_events _ rfl evs hclean
+
+/-- ... so the read stream gets exactly the rendered messages the validator accepts, once, in order. -/
+theorem c12_server_messages_once_in_order (dec : Str → Option (Msg α)) (evs : List (Ev × Bool))
+    (hclean : ∀ p ∈ evs, p.1.Clean) (chunks : List Str) (h : chunks.flatten = renderText evs) :
+    srvDelivered dec (runChunks PSt.init chunks).2 = srvDelivered dec (evs.filterMap (fun p => p.1.act)) := by
+  rw [c12_stream_delivers_rendered evs hclean chunks h]
+
+example : renderText [(.comment " hi".toList, false), (.endpoint "/messages/?s=1".toList, true), (.message "{\"a\":1}".toList, false)]
+    = ": hi\nevent: endpoint\r\ndata: /messages/?s=1\r\n\r\nevent: message\ndata: {\"a\":1}\n\n".toList := by decide
+
+example : (Ev.message "{\"a\":1}".toList).Clean := by
+  refine ⟨by decide, ?_, ?_⟩ <;> intro c hc <;> simp at hc <;> subst hc <;> decide
 
 /-! ## resources (abstract handles only — see the header) -/
 
